@@ -396,4 +396,54 @@ theorem verdict_sets (op : String) (hop : op = ">=" ∨ op = ">") (num den : Nat
         · rw [e] at hc; simp [cmpOp] at hc; exact Nat.le_of_lt hc
       · simp [h2] at hv
 
+/-! ## the interval source -/
+
+/-- with the handler running, `triggerRebroadcast` ends on one of its three paths -/
+theorem trigger_out (s : State) (hs : s.stopped = false) :
+    (step s .trigger).2 = .busy ∨ (step s .trigger).2 = .idle ∨ ∃ snap, (step s .trigger).2 = .started snap := by
+  simp only [step, hs, Bool.false_eq_true, ↓reduceIte]
+  cases s.running with
+  | some r => exact Or.inl rfl
+  | none =>
+    cases s.pending with
+    | nil => exact Or.inr (Or.inl rfl)
+    | cons p ps => exact Or.inr (Or.inr ⟨_, rfl⟩)
+
+theorem tstep_armed (iv : IntervalSrc) (hiv : iv.sound = true) (t : TState) (ha : t.armed = true) (o : TOp) :
+    (tstep iv t o).1.armed = true := by
+  cases o with
+  | op o => simp [tstep, ha]
+  | tick =>
+    simp only [tstep, ha, Bool.not_true, Bool.false_or]
+    cases hs : t.core.stopped with
+    | true => simpa using ha
+    | false =>
+      simp only [Bool.false_eq_true, ↓reduceIte]
+      simp only [IntervalSrc.sound, Bool.or_eq_true, Bool.and_eq_true] at hiv
+      rcases hiv with hp | ⟨h1, h2⟩
+      · simp [hp]
+      · rcases trigger_out t.core hs with h | h | ⟨snap, h⟩ <;> simp [h, rearmed, h1, h2]
+
+theorem tstep_core (iv : IntervalSrc) (t : TState) (ha : t.armed = true) (o : TOp) :
+    (tstep iv t o).1.core = (step t.core o.toOp).1 ∧ (tstep iv t o).2 = (step t.core o.toOp).2 := by
+  cases o with
+  | op o => exact ⟨rfl, rfl⟩
+  | tick =>
+    simp only [tstep, ha, Bool.not_true, Bool.false_or, TOp.toOp]
+    cases hs : t.core.stopped with
+    | true => simp [step, hs]
+    | false => simp
+
+theorem trun_sound (iv : IntervalSrc) (hiv : iv.sound = true) (ops : List TOp) (t : TState) (ha : t.armed = true) :
+    (trun iv t ops).armed = true ∧ (trun iv t ops).core = run t.core (ops.map TOp.toOp) := by
+  induction ops generalizing t with
+  | nil => exact ⟨ha, rfl⟩
+  | cons o os ih =>
+    have h1 := tstep_armed iv hiv t ha o
+    have h2 := tstep_core iv t ha o
+    have := ih (tstep iv t o).1 h1
+    simp only [trun, List.map_cons, run]
+    rw [← h2.1]
+    exact this
+
 end Neutrino.PushTx
